@@ -16,7 +16,7 @@
    operands through all Context methods and the read-only Decimal methods, comparing every result with a
    sequential baseline (GORACE=halt_on_error=1). *)
 From Coq Require Import ZArith Bool List.
-From Apd Require Import Generated.Consts Model.Base Model.NumDigits Imp.Mem Imp.Ops Imp.AliasProofs Imp.Interleave Imp.Concurrent Model.Decimal Model.Context Imp.CtxOps Imp.CtxProofs Imp.ConcurrentCtx.
+From Apd Require Import Generated.Consts Model.Base Model.NumDigits Imp.Mem Imp.Ops Imp.AliasProofs Imp.Interleave Imp.Concurrent Model.Decimal Model.Context Imp.CtxOps Imp.CtxProofs Imp.CtxOps2 Imp.ConcurrentCtx.
 Import ListNotations.
 Open Scope Z_scope.
 
@@ -51,6 +51,27 @@ Theorem C18_shared_context_two_adds est c m0 sched :
   (forall f, m (OB, f) = snd (run (add_imp est c true OB OC OC) m0) (OB, f)).
 Proof. exact (shared_context_and_operand_any_schedule est c m0 sched). Qed.
 Print Assumptions C18_shared_context_two_adds.
+
+(* any two methods with the footprints "reads destination and shared operand, writes destination" on one Context *)
+Theorem C18_shared_operand_any_two_methods (p1 p2 : prog outcome) m0 sched :
+  rd_within (only_objs [OA; OC; OC]) p1 -> wr_within (only_obj OA) p1 ->
+  rd_within (only_objs [OB; OC; OC]) p2 -> wr_within (only_obj OB) p2 ->
+  let '(ts, m) := exec [p1; p2] m0 sched in
+  forall o1 o2, nth_error ts 0 = Some (Ret o1) -> nth_error ts 1 = Some (Ret o2) ->
+  o1 = fst (run p1 m0) /\ o2 = fst (run p2 m0) /\
+  (forall f, m (OA, f) = snd (run p1 m0) (OA, f)) /\ (forall f, m (OB, f) = snd (run p2 m0) (OB, f)).
+Proof. exact (shared_operand_any_two_methods p1 p2 m0 sched). Qed.
+Print Assumptions C18_shared_operand_any_two_methods.
+(* instance: OA := OC / OC and OB := Quantize(OC, e) *)
+Theorem C18_shared_context_quo_and_quantize est c e m0 sched :
+  let p1 := quo_imp est c OA OC OC in
+  let p2 := quantize_imp est c e OB OC in
+  let '(ts, m) := exec [p1; p2] m0 sched in
+  forall o1 o2, nth_error ts 0 = Some (Ret o1) -> nth_error ts 1 = Some (Ret o2) ->
+  o1 = fst (run p1 m0) /\ o2 = fst (run p2 m0) /\
+  (forall f, m (OA, f) = snd (run p1 m0) (OA, f)) /\ (forall f, m (OB, f) = snd (run p2 m0) (OB, f)).
+Proof. exact (shared_context_quo_and_quantize est c e m0 sched). Qed.
+Print Assumptions C18_shared_context_quo_and_quantize.
 
 Theorem C18_context_add_footprint est c sub d x y :
   rd_within (only_objs [d; x; y]) (add_imp est c sub d x y) /\ wr_within (only_obj d) (add_imp est c sub d x y).
